@@ -6,7 +6,13 @@
      c15_cyc <edges> <guarded> <pre> <cyc>          -> CYCLE | NOCYCLE   (unguarded_cycle)
      c15_run <edges> <guarded> <frame> <max> <pre> <cyc> <k>
          the depth-indexed run on the call path pre ++ cyc^k with a uniform frame size
-                                                    -> FIRED <depth> | COMPLETED <depth> | NOCHAIN *)
+                                                    -> FIRED <depth> | COMPLETED <depth> | NOCHAIN
+   coq/Rt/HeapBound.v (allocation-metered UPER string / list decoders):
+     c15_str <P|U> <bits per unit> <bpc; 0 = BIT STRING> <lb>,<ub|->,<ext 0|1> <hex | @file>
+     c15_lst <P|U> <bits per element> <bytes per element> <lb>,<ub|->,<ext> <hex | @file>
+         P = PerFragment (the C), U = PreallocUb
+         -> OK <units> <bits left> peak=<n> maxreq=<n> allocs=<n> [held=<n> cap=<n>]
+          | NONE peak=<n> maxreq=<n> allocs=<n> [held=<n> cap=<n>] *)
 open Model
 open Drvlib
 
@@ -18,6 +24,33 @@ let edges s =
                           | [a; b] -> (nat_of_int (int_of_string a), nat_of_int (int_of_string b))
                           | _ -> failwith "edge") (String.split_on_char ',' s)
 let graph e g = { cg_edges = edges e; cg_guarded = nodes g }
+
+let bits_of_input (src : string) : bool list =
+  let data =
+    if String.length src > 0 && src.[0] = '@' then begin
+      let ic = open_in_bin (String.sub src 1 (String.length src - 1)) in
+      let n = in_channel_length ic in
+      let b = really_input_string ic n in
+      close_in ic; b
+    end else if src = "-" then ""
+    else String.init (String.length src / 2) (fun i -> Char.chr (int_of_string ("0x" ^ String.sub src (2 * i) 2))) in
+  let acc = ref [] in
+  for i = String.length data - 1 downto 0 do
+    let c = Char.code data.[i] in
+    for k = 0 to 7 do acc := ((c lsr k) land 1 = 1) :: !acc done
+  done;
+  !acc
+
+let scon_of s =
+  match String.split_on_char ',' s with
+  | [lb; ub; ext] -> SCon (cz_of_string lb, (if ub = "-" then None else Some (cz_of_string ub)), ext = "1")
+  | _ -> failwith "scon"
+
+let pol_of s = if s = "U" then PreallocUb else PerFragment
+let meter_s m = Printf.sprintf "peak=%s maxreq=%s allocs=%s" (string_of_cz m.m_peak) (string_of_cz m.m_maxreq) (string_of_cz m.m_allocs)
+let res_s = function
+  | Some (n, r) -> Printf.sprintf "OK %s %s" (string_of_cz n) (string_of_cz r)
+  | None -> "NONE"
 
 let dispatch cmd args =
   match cmd, args with
@@ -36,4 +69,10 @@ let dispatch cmd args =
         (match run_path gr (fun _ -> f) (cz_of_string mx) Z0 O path with
          | GuardFired d -> Some (Printf.sprintf "FIRED %d" (int_of_nat d))
          | Completed d -> Some (Printf.sprintf "COMPLETED %d" (int_of_nat d)))
+  | "c15_str", [pol; ub; bpc; sc; src] ->
+      let (res, m) = c15_str (pol_of pol) (nat_of_int (int_of_string ub)) (cz_of_string bpc) (scon_of sc) (bits_of_input src) in
+      Some (res_s res ^ " " ^ meter_s m)
+  | "c15_lst", [pol; ub; esz; sc; src] ->
+      let (res, (m, l)) = c15_lst (pol_of pol) (nat_of_int (int_of_string ub)) (cz_of_string esz) (scon_of sc) (bits_of_input src) in
+      Some (Printf.sprintf "%s %s held=%s cap=%s" (res_s res) (meter_s m) (string_of_cz l.l_count) (string_of_cz l.l_cap))
   | _ -> None
